@@ -107,4 +107,10 @@ Section WithTables.
   Definition run_pipeline (cases : list (list str * option (list ((str * str) * nat)))) : list N :=
     report (opt_eqb (list_eqb pm_eqb)) pipeline_obs
            (fun raw => [guard_F20k raw; guard_F20m raw]) cases.
+  (* clean_auto_generated_operation_id: ((operationId, HTTP method), path) -> id, and the method name derived from it *)
+  Definition m_clean := clean_op_id o_lower o_ign o_cased.
+  Definition clean_obs (x : (str * str) * str) : str * str :=
+    let id := m_clean (fst (fst x)) (snd (fst x)) (snd x) in (id, method_name id).
+  Definition run_clean (cases : list (((str * str) * str) * (str * str))) : list N :=
+    report (pair_eqb str_eqb str_eqb) clean_obs (fun _ => []) cases.
 End WithTables.
